@@ -247,10 +247,12 @@ def _shape(ks):
     return "[" + ",".join(one(k) for k in ks) + "]"
 
 
-def expected_header(tj, lang_id, version, anonymous):
+def expected_header(tj, lang_id, version, anonymous, text_pid=False):
     l = [x for x in tj["langs"] if x["id"] == lang_id][0]
     if anonymous:
         return ("num", 1)             # 'unknown', whatever the language, and no id string
+    if text_pid and l["pub_text"] is not None:
+        return ("str", l["pub_text"])  # wbxml_encoder_set_text_public_id: the identifier as a string-table reference
     if l["pub_num"] != 1:
         return ("num", l["pub_num"])
     if l["pub_text"] is None:
@@ -258,7 +260,7 @@ def expected_header(tj, lang_id, version, anonymous):
     return ("str", l["pub_text"])
 
 
-def judge(xml, wbxml, tj, lang_id, version, anonymous, keep_ws):
+def judge(xml, wbxml, tj, lang_id, version, anonymous, keep_ws, text_pid=False):
     """Oracle verdict on the C's bytes: list of reasons why they are not a strict WBXML document denoting the
     source (empty = property holds on this case)."""
     try:
@@ -268,7 +270,7 @@ def judge(xml, wbxml, tj, lang_id, version, anonymous, keep_ws):
     out = []
     if doc.version != version:
         out.append("version byte %d, requested %d" % (doc.version, version))
-    kind, val = expected_header(tj, lang_id, version, anonymous)
+    kind, val = expected_header(tj, lang_id, version, anonymous, text_pid)
     if kind == "num":
         if doc.pubid_num != val:
             out.append("public id %r (string %r), expected numeric %d" % (doc.pubid_num, doc.pubid_str, val))
